@@ -14,7 +14,7 @@ import (
 func init() {
 	register("C15", PropCheck{
 		Title:      "Malformed bytecode is rejected with an error, never a crash or a silent accept",
-		Explain:    "Decided for all byte strings at once: (R1) every index, slice and length-preconditioned library call on a byte slice / string / byte array in package vm (decoder primitives, Parse* wrappers, opcode handlers, disassembler, input validation) is proved in bounds by a difference-constraint closure over dominating length guards; (R2) no slice bound is computed by arithmetic that can wrap in a narrow integer type; (R3) for every call of a decoder (a vm function taking bytecode and returning an error) made in package vm, the error value flows into the error result of the caller and every other result of that call is used (as call argument or in a store) only behind the error==nil edge; (R4) every switch over vm.Opcode has an erroring default; (R5) opSplit rejects values above the largest opcode with a handler; (R6) the integer decoder rejects a length byte above 4; (R7) State flag accessors that panic out of range are called with a bytecode-supplied index only behind a range test against FlagBitSize; (R8) every path through a Parse* function to a nil-error return decodes the same sequence of arguments (no success path that skips a primitive decoder); (R9) no operand decoded from bytecode is narrowed without a range check anywhere in package vm (the conversion's operand is proved within the target type's range by a dominating test, as for the LOAD size limit), so an out-of-range operand is rejected instead of being accepted with its low-order bits; (R10) ParseHandler.ParseAll reports success only behind an edge on which the remaining bytecode is known to be empty (len == 0 exactly; added after seeded change C15-G, a loop that stopped at fewer than two bytes); (R11) a call in package vm through a function value loaded from an array, slice or map element is dominated by a non-nil test of that value (added after C15-H, a dispatch table with no entry for opcode 0). (R12) = the C08 R7 invariant: State.BitSize and the flag bytes are set together by the constructor only, so the accessors' range check `bit < BitSize` implies the byte index is in range (added after seeded change C15-J).",
+		Explain:    "Decided for all byte strings at once: (R1) every index, slice and length-preconditioned library call on a byte slice / string / byte array in package vm (decoder primitives, Parse* wrappers, opcode handlers, disassembler, input validation) is proved in bounds by a difference-constraint closure over dominating length guards; (R2) no slice bound is computed by arithmetic that can wrap in a narrow integer type; (R3) for every call of a decoder (a vm function taking bytecode and returning an error) made in package vm, the error value flows into the error result of the caller and every other result of that call is used (as call argument or in a store) only behind the error==nil edge; (R4) every switch over vm.Opcode has an erroring default; (R5) opSplit rejects values above the largest opcode with a handler; (R6) the integer decoder rejects a length byte above 4; (R7) State flag accessors that panic out of range are called with a bytecode-supplied index only behind a range test against FlagBitSize; (R8) every path through a Parse* function to a nil-error return decodes the same sequence of arguments (no success path that skips a primitive decoder); (R9) no operand decoded from bytecode is narrowed without a range check anywhere in package vm (the conversion's operand is proved within the target type's range by a dominating test, as for the LOAD size limit), so an out-of-range operand is rejected instead of being accepted with its low-order bits; (R10) ParseHandler.ParseAll reports success only behind an edge on which the remaining bytecode is known to be empty (len == 0 exactly; added after seeded change C15-G, a loop that stopped at fewer than two bytes); (R11) a call in package vm through a function value loaded from an array, slice or map element is dominated by a non-nil test of that value (added after C15-H, a dispatch table with no entry for opcode 0). (R12) = the C08 R7 invariant: State.BitSize and the flag bytes are set together by the constructor only, so the accessors' range check `bit < BitSize` implies the byte index is in range (added after seeded change C15-J). (R13) no function reachable from the Parse* functions and ParseAll stores to a package-level variable of the library or updates a map or element reached through one: decoding is a pure function of the bytes (added after seeded change C15-N, an unlocked interning table in the symbol decoder).",
 		NotDecided: "panics inside callbacks supplied by the caller of ParseHandler; implicit panics outside package vm (C08 covers named renderer sites); execution effects of well-formed but meaningless programs; that error texts are helpful.",
 		Assume:     []string{"slices and strings are shorter than MaxInt-2^16 bytes, so len(x)+small constant does not overflow int", "encoding/binary.BigEndian.UintN/PutUintN panic exactly when the slice is shorter than N/8 bytes"},
 		Run:        runC15,
